@@ -218,7 +218,7 @@ fn fix_ep(x: &mut Pos) {
 pub fn run(cfg: &Cfg) -> i32 {
     let mut report = engine::run_shards(cfg, |shard, ctx, seedf| {
         common::golden(cfg, shard, ctx, &check_step)?;
-        common::histories(ctx, seedf(1), cfg.per_shard(40_000, 400_000), 6, 48, None, &check_step)?;
+        common::histories(ctx, seedf(1), cfg.per_shard(120_000, 800_000), 6, 48, None, &check_step)?;
         Ok(())
     });
     // global collision map over every distinct position met by any shard
